@@ -19,6 +19,10 @@ EXTRA = [
     # compound statement, at body depth right after the last statement, between nested definitions
     Skeleton("b13_comments_at_scope_ends", {"main.py": "def outer({0}):\n    {1} = 0\n    if {0}:\n        {1} = 1\n# dedented comment inside the trailing if\n        {1} += 1\n    # comment at body depth\n\nclass kk:\n    def mm(self, {2}):\n        return {2}\n        # trailing comment deeper than the body\n    # comment at class depth\n    def nn(self):\n        for {3} in [1]:\n            pass\n  # oddly indented comment\n        else:\n            {3} = 2\n        return {3}\n# module comment\nprint(outer(1), kk().mm(2), kk().nn())\n"}),
     Skeleton("b12_lambda_default", {"main.py": "{0} = 1\n{1} = lambda {2}, {3}={0}: {2} + {3}\nprint({1}(1))\n"}),
+    # decorators, multi-line headers and one-line bodies: where a scope starts and ends
+    Skeleton("b14_decorated_multiline_headers", {"main.py": "import functools\ndef deco({0}):\n    return {0}\n@deco\n@functools.wraps(\n    deco\n)\ndef fun({1},\n        {2}=(1,\n             2)):\n    return {1}, {2}\n@deco\nclass kk(\n        object):\n    def mm(self, {3}): return {3}\n    def nn(self,\n           {1}): return {1}\n    {2} = 1\nprint(fun(1), kk().mm(2), kk().nn(3), kk.{2})\n"}),
+    # a comprehension in a class body: its first iterable is evaluated in the class scope, the rest is not
+    Skeleton("b15_comprehension_in_class", {"main.py": "{0} = [3]\nclass kk:\n    {1} = [1, 2]\n    {2} = [{3} for {3} in {1}]\n    def mm(self, {3}):\n        return {3}, {0}\nprint(kk.{2}, kk().mm(1))\n"}),
 ]
 
 K15 = [sk for sk in K01 if len(sk.files) == 1] + EXTRA
